@@ -161,6 +161,12 @@ pub trait StarkField: Sized {
     fn as_int(&self) -> (r: Self::PositiveInteger)
         requires self.wf_t();
 }
+// reduced declaration of math/src/field/traits.rs `FieldElement` (the method under contract)
+pub trait FieldElement: Sized {
+    spec fn wf_e(self) -> bool;
+    fn double(self) -> (r: Self)
+        requires self.wf_e();
+}
 // reduced declaration of math/src/field/traits.rs `ExtensibleField<N>` (the methods under contract)
 pub trait ExtensibleField<const N: usize>: Sized {
     spec fn wf_x(a: [Self; N]) -> bool;
@@ -222,6 +228,48 @@ EXT2_MUL_PROOF = r"""
             vstd::arithmetic::div_mod::lemma_mul_mod_noop(a0 + a1, b0 + b1, P());
             vstd::arithmetic::div_mod::lemma_sub_mod_noop((a0 + a1) * (b0 + b1), a0 * b0, P());
             assert((a0 + a1) * (b0 + b1) - a0 * b0 == a0 * b1 + a1 * b0 + a1 * b1) by (nonlinear_arith);
+        }"""
+
+EXT3_EXTRA = r"""
+    open spec fn wf_x(a: [BaseElement; 3]) -> bool { wf(a[0]) && wf(a[1]) && wf(a[2]) }
+    open spec fn wf_b(b: BaseElement) -> bool { wf(b) }
+"""
+EXT3_MUL_PROOF = r"""
+        proof {
+            use vstd::arithmetic::div_mod::*;
+            let (a0, a1, a2, b0, b1, b2) = (val(a[0]), val(a[1]), val(a[2]), val(b[0]), val(b[1]), val(b[2]));
+            let (e00, e11, e22) = (a0 * b0, a1 * b1, a2 * b2);
+            let m01 = (a0 + a1) * (b0 + b1);
+            let n02 = (a0 - a2) * (b2 - b0);
+            let n12 = (a1 - a2) * (b1 - b2);
+            // expand the products once; afterwards every identity is linear in the a_i * b_j
+            assert(m01 == a0 * b0 + a0 * b1 + a1 * b0 + a1 * b1) by (nonlinear_arith) requires m01 == (a0 + a1) * (b0 + b1);
+            assert(n02 == a0 * b2 - a0 * b0 - a2 * b2 + a2 * b0) by (nonlinear_arith) requires n02 == (a0 - a2) * (b2 - b0);
+            assert(n12 == a1 * b1 - a1 * b2 - a2 * b1 + a2 * b2) by (nonlinear_arith) requires n12 == (a1 - a2) * (b1 - b2);
+            // products of sums / differences
+            lemma_mul_mod_noop(a0 + a1, b0 + b1, P());
+            lemma_mul_mod_noop(a0 - a2, b2 - b0, P());
+            lemma_mul_mod_noop(a1 - a2, b1 - b2, P());
+            // s = a0b0 + a1b1
+            lemma_add_mod_noop(e00, e11, P());
+            // d = 2 * (n12 - e11 - e22)
+            lemma_sub_mod_noop(n12, e11, P());
+            lemma_sub_mod_noop(n12 - e11, e22, P());
+            lemma_mul_mod_noop_right(2, n12 - e11 - e22, P());
+            let d = 2 * (n12 - e11 - e22);
+            // r0 = e00 + d
+            lemma_add_mod_noop(e00, d, P());
+            assert(e00 + d == a0 * b0 - 2 * (a1 * b2 + a2 * b1));
+            // r1 = m01 + d - 2 e22 - (e00 + e11)
+            lemma_add_mod_noop(m01, d, P());
+            lemma_mul_mod_noop_right(2, e22, P());
+            lemma_sub_mod_noop(m01 + d, 2 * e22, P());
+            lemma_sub_mod_noop(m01 + d - 2 * e22, e00 + e11, P());
+            assert(m01 + d - 2 * e22 - (e00 + e11) == a0 * b1 + a1 * b0 - 2 * (a1 * b2 + a2 * b1) - 2 * (a2 * b2));
+            // r2 = n02 + (e00 + e11) - e22
+            lemma_add_mod_noop(n02, e00 + e11, P());
+            lemma_sub_mod_noop(n02 + (e00 + e11), e22, P());
+            assert(n02 + (e00 + e11) - e22 == a0 * b2 + a1 * b1 + a2 * b0 - 2 * (a2 * b2));
         }"""
 
 EPILOGUE = r'''
@@ -380,6 +428,42 @@ UNIT = {
              "spec": "ensures wf(r[0]), wf(r[1]),\n"
                      "    // conjugation phi -> 1 - phi of x^2 - x - 1\n"
                      "    val(r[0]) == (val(x[0]) + val(x[1])) % P(), val(r[1]) == (0 - val(x[1])) % P(),"},
+        ]},
+
+        {"kind": "impl", "file": F, "header": "impl FieldElement for BaseElement",
+         "extra": "open spec fn wf_e(self) -> bool { wf(self) }\n", "methods": [
+            {"name": "double", "ret": "r", "fnlabel": "f62 FieldElement::double", "ob": "C10.f62.double.contract",
+             "spec": "ensures wf(r), (r.0 as int) % P() == (2 * self.0 as int) % P(), val(r) == (2 * val(self)) % P(),",
+             "ghost": [{"at": "start", "text": "proof { lemma_val_add_forall(self.0 as int, self.0 as int); }"},
+                       {"at": "after", "anchor": "let z =", "text": r"""
+        proof {
+            let x = self.0;
+            assert(z == 2 * x) by (bit_vector) requires z == x << 1, x < 0x8000_0000_0000_0000u64;
+            assert(z >> 62 <= 3 && ((z >> 62 == 0) <==> (z < 0x4000_0000_0000_0000u64))
+                && ((z >> 62 == 1) <==> (0x4000_0000_0000_0000u64 <= z < 0x8000_0000_0000_0000u64))
+                && ((z >> 62 == 2) <==> (0x8000_0000_0000_0000u64 <= z < 0xc000_0000_0000_0000u64))) by (bit_vector);
+            assert((z >> 62) * M <= 3 * M) by (nonlinear_arith) requires (z >> 62) <= 3, M == 4611624995532046337u64;
+        }"""},
+                       {"at": "after", "anchor": "let q =", "text": r"""
+        proof {
+            let k = (z >> 62) as int;
+            assert(q as int == k * P()) by (nonlinear_arith) requires q as int == (z >> 62) as int * (M as int), M as int == P(), k == (z >> 62) as int;
+            assert((z as int - k * P()) % P() == (z as int) % P()) by {
+                vstd::arithmetic::div_mod::lemma_mod_multiples_vanish(-k, z as int, P());
+                assert(z as int + (-k) * P() == z as int - k * P()) by (nonlinear_arith);
+            }
+            assert(2 * self.0 as int == self.0 as int + self.0 as int);
+        }"""}]}]},
+        {"kind": "impl", "file": F, "header": "impl ExtensibleField<3> for BaseElement", "extra": EXT3_EXTRA, "methods": [
+            {"name": "mul", "ret": "r", "attrs": "#[verifier::rlimit(300)]\n", "fnlabel": "f62 <BaseElement as ExtensibleField<3>>::mul", "ob": "C10.f62.ext3.mul.contract",
+             "spec": "ensures wf(r[0]), wf(r[1]), wf(r[2]),\n"
+                     "    // (a0 + a1 phi + a2 phi^2)(b0 + b1 phi + b2 phi^2) with phi^3 = -2 phi - 2\n"
+                     "    val(r[0]) == (val(a[0]) * val(b[0]) - 2 * (val(a[1]) * val(b[2]) + val(a[2]) * val(b[1]))) % P(),\n"
+                     "    val(r[1]) == (val(a[0]) * val(b[1]) + val(a[1]) * val(b[0]) - 2 * (val(a[1]) * val(b[2]) + val(a[2]) * val(b[1])) - 2 * (val(a[2]) * val(b[2]))) % P(),\n"
+                     "    val(r[2]) == (val(a[0]) * val(b[2]) + val(a[1]) * val(b[1]) + val(a[2]) * val(b[0]) - 2 * (val(a[2]) * val(b[2]))) % P(),",
+             "ghost": [{"at": "start", "text": EXT3_MUL_PROOF}]},
+            {"name": "mul_base", "ret": "r", "fnlabel": "f62 <BaseElement as ExtensibleField<3>>::mul_base", "ob": "C10.f62.ext3.mul_base.contract",
+             "spec": "ensures wf(r[0]), wf(r[1]), wf(r[2]), val(r[0]) == (val(a[0]) * val(b)) % P(), val(r[1]) == (val(a[1]) * val(b)) % P(), val(r[2]) == (val(a[2]) * val(b)) % P(),"},
         ]},
     ],
     "epilogue": EPILOGUE,
